@@ -659,3 +659,77 @@ theorem ci_of_indices_ok (crit : Crit Rex) (conf : Confidence Rex) (xs : List T)
 end sort
 end Quantile
 end StatsCI
+
+/-! ### vocabulary of the C03 statements and a concrete instance for non-vacuity -/
+
+namespace StatsCI
+namespace QSpec
+
+/-- a confidence level the constructors of `Confidence` accept: strictly between 0 and 1 -/
+abbrev ValidLevel (conf : Confidence Rex) : Prop := 0 < conf.level.val ∧ conf.level.val < 1
+
+/-- the critical value the model obtains from the external normal-quantile routine -/
+noncomputable abbrev zOf (crit : Crit Rex) (conf : Confidence Rex) : ℝ := (crit (.z conf.quantile)).val
+
+/-- an admissible quantile: strictly between 0 and 1 -/
+abbrev ValidQuantile (q : Rex) : Prop := 0 < q.val ∧ q.val < 1
+
+theorem successes_half_ten : successes (1 / 2) 10 = 5 := by
+  unfold successes
+  have : (1 / 2 : ℝ) * ((10 : ℕ) : ℝ) = ((5 : ℕ) : ℝ) := by norm_num
+  rw [this, round_natCast]; rfl
+
+/-- recognising a rank from two-sided bounds on `p·n` -/
+theorem rank_eq_of (n m : ℕ) (p : ℝ) (h1 : (m : ℝ) ≤ p * n) (h2 : p * n < m + 1)
+    (hm : m ≤ n - 1) : rank n p = m := by
+  unfold rank
+  have h0 : 0 ≤ p * n := le_trans (Nat.cast_nonneg m) h1
+  rw [(Nat.floor_eq_iff h0).mpr ⟨h1, h2⟩]
+  exact min_eq_left hm
+
+/-- `n = 10`, `k = 5`, `z = 2`: the Wilson ranks are 2 and 7 -/
+theorem ranks_10_5_2 : rank 10 (pLow 10 5 2) = 2 ∧ rank 10 (pHigh 10 5 2) = 7 := by
+  have e : ((5 : ℕ) : ℝ) * (((10 : ℕ) : ℝ) - ((5 : ℕ) : ℝ)) / ((10 : ℕ) : ℝ) + (2 : ℝ) ^ 2 / 4
+      = 7 / 2 := by norm_num
+  have hs1 : (7 / 5 : ℝ) < Real.sqrt (7 / 2) := (Real.lt_sqrt (by norm_num)).mpr (by norm_num)
+  have hs2 : Real.sqrt (7 / 2) < (21 / 10 : ℝ) := (Real.sqrt_lt' (by norm_num)).mpr (by norm_num)
+  have el : pLow 10 5 2 * ((10 : ℕ) : ℝ) = 5 - 10 / 7 * Real.sqrt (7 / 2) := by
+    unfold pLow centre span; rw [e]; push_cast; ring
+  have eh : pHigh 10 5 2 * ((10 : ℕ) : ℝ) = 5 + 10 / 7 * Real.sqrt (7 / 2) := by
+    unfold pHigh centre span; rw [e]; push_cast; ring
+  constructor
+  · apply rank_eq_of
+    · rw [el]; push_cast; linarith
+    · rw [el]; push_cast; linarith
+    · norm_num
+  · apply rank_eq_of
+    · rw [eh]; push_cast; linarith
+    · rw [eh]; push_cast; linarith
+    · norm_num
+
+/-- `n = 10`, `k = 5`, `z = 1/10`: the Wilson ranks are the adjacent positions 4 and 5 = `k` -/
+theorem ranks_10_5_tenth : rank 10 (pLow 10 5 (1 / 10)) = 4 ∧ rank 10 (pHigh 10 5 (1 / 10)) = 5 := by
+  have e : ((5 : ℕ) : ℝ) * (((10 : ℕ) : ℝ) - ((5 : ℕ) : ℝ)) / ((10 : ℕ) : ℝ) + (1 / 10 : ℝ) ^ 2 / 4
+      = 1001 / 400 := by norm_num
+  have hs1 : (0 : ℝ) < Real.sqrt (1001 / 400) := Real.sqrt_pos.mpr (by norm_num)
+  have hs2 : Real.sqrt (1001 / 400) < (10 : ℝ) := (Real.sqrt_lt' (by norm_num)).mpr (by norm_num)
+  have el : pLow 10 5 (1 / 10) * ((10 : ℕ) : ℝ) = 5 - 100 / 1001 * Real.sqrt (1001 / 400) := by
+    unfold pLow centre span; rw [e]; push_cast; ring
+  have eh : pHigh 10 5 (1 / 10) * ((10 : ℕ) : ℝ) = 5 + 100 / 1001 * Real.sqrt (1001 / 400) := by
+    unfold pHigh centre span; rw [e]; push_cast; ring
+  constructor
+  · apply rank_eq_of
+    · rw [el]; push_cast; linarith
+    · rw [el]; push_cast; linarith
+    · norm_num
+  · apply rank_eq_of
+    · rw [eh]; push_cast; linarith
+    · rw [eh]; push_cast; linarith
+    · norm_num
+
+theorem validLevel_example : ValidLevel (.twoSided (inj (9 / 10))) := by
+  show 0 < (9 / 10 : ℝ) ∧ (9 / 10 : ℝ) < 1
+  norm_num
+
+end QSpec
+end StatsCI
